@@ -344,14 +344,15 @@ def group_where(tlist):
 @recurse()
 def group_aliased(tlist):
     I_ALIAS = (sql.Parenthesis, sql.Function, sql.Case, sql.Identifier,
-               sql.Operation, sql.Comparison)
+               sql.Operation, sql.Comparison, sql.TypedLiteral)
 
-    tidx, token = tlist.token_next_by(i=I_ALIAS, t=T.Number)
+    ttypes = [T.Number, T.String.Single, T.Name.Placeholder]
+    tidx, token = tlist.token_next_by(i=I_ALIAS, t=ttypes)
     while token:
         nidx, next_ = tlist.token_next(tidx)
         if isinstance(next_, sql.Identifier):
             tlist.group_tokens(sql.Identifier, tidx, nidx, extend=True)
-        tidx, token = tlist.token_next_by(i=I_ALIAS, t=T.Number, idx=tidx)
+        tidx, token = tlist.token_next_by(i=I_ALIAS, t=ttypes, idx=tidx)
 
 
 @recurse(sql.Function)
